@@ -71,8 +71,119 @@ def replay(r):
         shutil.rmtree(d, ignore_errors=True)
 
 
+def _replay_e2e(r):
+    """the same genome text as a real FASTA file, the model's loci and seed through the real extract_matching_loci, judged by
+    a direct re-computation over the text"""
+    import pandas
+    from fractions import Fraction as Fr
+    from tangermeme import match
+    W, recs = _genome(r["genome"])
+    gcw, maxn = r.get("gc_bin_width", 0.5), r.get("max_n_perc", 0.25)
+    loci = [tuple(l) for l in r["loci_v"]]
+    seqs = dict(recs)
+    d = tempfile.mkdtemp(prefix="c17_")
+    try:
+        fa = os.path.join(d, "g.fa")
+        with open(fa, "w") as f:
+            for c, sq in recs:
+                f.write(">%s\n%s\n" % (c, sq))
+        df = pandas.DataFrame(loci, columns=["chrom", "start", "end"])
+        chroms = r.get("chroms")
+        outs = []
+        bw_kw, sig, thr = {}, r.get("signal"), None
+        outw = r.get("out_window", W)
+        if sig:
+            import pyBigWig
+            import numpy
+            bwp = os.path.join(d, "s.bw")
+            bw = pyBigWig.open(bwp, "w")
+            bw.addHeader([(c, len(sq)) for c, sq in recs])
+            for c, sq in recs:
+                bw.addEntries(c, 0, values=[float(v) for v in sig[c]], span=1, step=1)
+            bw.close()
+            bw_kw = dict(bigwig=bwp, signal_beta=r.get("beta", 0.5))
+            big = max(W, outw)
+            cnts = []
+            for c, a, b in loci:
+                mid = a + (b - a) // 2
+                if mid - big // 2 < 0 or mid + (big + 1) // 2 > len(seqs[c]):
+                    continue
+                cnts.append(sum(sig[c][mid - outw // 2:mid + (outw + 1) // 2]))
+            thr = float(numpy.quantile(cnts, 0.01)) * r.get("beta", 0.5) if cnts else float("nan")
+        for seed in sorted({r.get("seed", 0), 0, 1, 2, 3}):
+            for nj in (1, 2):
+                try:
+                    outs.append((seed, nj, match.extract_matching_loci(df, fa, in_window=W, out_window=r.get("out_window", W), max_n_perc=maxn, gc_bin_width=gcw,
+                                                                       chroms=chroms, random_state=seed, n_jobs=nj, **bw_kw)))
+                except Exception as e:
+                    return True, "extract_matching_loci raised %s: %s" % (type(e).__name__, e)
+        eff = chroms if chroms is not None else sorted({l[0] for l in loci})
+        wbin = Fr(gcw)
+        nb = int(1 / wbin) + 1
+        inp, usable = [0] * nb, 0
+        for c, a, b in loci:
+            mid = a + (b - a) // 2
+            lo, hi = mid - W // 2, mid + (W + 1) // 2
+            if lo < 0 or hi > len(seqs[c]):
+                continue
+            win = seqs[c][lo:hi]
+            if not Fr(win.count("N"), W) < Fr(maxn):
+                continue
+            usable += 1
+            inp[int((Fr(win.count("G") + win.count("C"), W) + wbin / 2) // wbin)] += 1
+        by_seed = {}
+        for seed, nj, res in outs:
+            rows = [(c, int(a), int(b)) for c, a, b in res.values[:, :3]]
+            by_seed.setdefault(seed, []).append(rows)
+            if rows != sorted(rows) or len(set(rows)) != len(rows):
+                return True, "result not sorted / not distinct: %s" % rows
+            got, elig_hi, elig_lo = [0] * nb, [0] * nb, [0] * nb
+            for c, sq in recs:
+                if c not in eff:
+                    continue
+                for t in range(len(sq) // W):
+                    tile = sq[t * W:(t + 1) * W]
+                    if Fr(tile.count("N"), W) > Fr(maxn):
+                        continue
+                    k = int((Fr(tile.count("G") + tile.count("C"), W) + wbin / 2) // wbin)
+                    overl = any(lc == c and t * W < b and (t + 1) * W > a for lc, a, b in loci)
+                    touched = any(lc == c and a // W <= t <= b // W for lc, a, b in loci)
+                    if sig:
+                        tot = sum(sig[c][t * W + (W - outw) // 2:(t + 1) * W - (W - outw + 1) // 2])
+                        if not tot <= thr + 1e-9:
+                            overl = touched = True
+                        elif not tot <= thr - 1e-9:
+                            touched = True           # borderline in floating point: may or may not be eligible
+                    elig_hi[k] += not overl
+                    elig_lo[k] += not touched
+            for c, a, b in rows:
+                if c not in eff or a % W or b != a + W or b > len(seqs[c]):
+                    return True, "returned locus (%s, %d, %d) is not an aligned tile inside an allowed chromosome" % (c, a, b)
+                tile = seqs[c][a:b]
+                if Fr(tile.count("N"), W) > Fr(maxn):
+                    return True, "returned tile (%s, %d) has N fraction above max_n_perc" % (c, a)
+                if sig and not sum(sig[c][a + (W - outw) // 2:b - (W - outw + 1) // 2]) <= thr + 1e-9:
+                    return True, "returned tile (%s, %d, %d) has central signal above signal_beta * robust minimum = %.4g" % (c, a, b, thr)
+                if any(lc == c and a < le and b > ls for lc, ls, le in loci):
+                    return True, "returned tile (%s, %d, %d) overlaps an input locus (input loci %s)" % (c, a, b, loci)
+                got[int((Fr(tile.count("G") + tile.count("C"), W) + wbin / 2) // wbin)] += 1
+            for k in range(nb):
+                if got[k] < min(inp[k], elig_lo[k]) or got[k] > elig_hi[k]:
+                    return True, "GC bin %d received %d loci; usable input %d, eligible background between %d and %d" % (k, got[k], inp[k], elig_lo[k], elig_hi[k])
+            if len(rows) > usable or len(rows) < min(usable, sum(elig_lo)):
+                return True, "%d loci returned for %d usable input loci and %d eligible background tiles" % (len(rows), usable, sum(elig_lo))
+        for seed, lst in by_seed.items():
+            if any(x != lst[0] for x in lst):
+                return True, "result depends on n_jobs for random_state=%d" % seed
+        return False, "ok"
+    finally:
+        shutil.rmtree(d, ignore_errors=True)
+
+
 def _replay_tiles(r):
     from tangermeme import match
+    if r["kind"] == "e2e":
+        return _replay_e2e(r)
     if r["kind"] == "coords":
         tiles = list(match._chrom_coords_generator("c", r["chrom_size"], r["width"]))
         exp = [("c", k * r["width"], (k + 1) * r["width"]) for k in range(r["chrom_size"] // r["width"])]
@@ -179,6 +290,173 @@ def _replay_signal(r):
         shutil.rmtree(d, ignore_errors=True)
 
 
+# ------------------------------------------------------------------ whole-function harness
+
+E2E_GENOMES = {
+    # tile width 4; every tile written by (GC count, N count); gc_bin_width 0.5 -> bins {0: gc 0, 1: gc 1..2 (0.25 rounds down? see _bin), ...}
+    "g1": {"W": 4, "chroms": [("c", ["AAAA", "GCAA", "GGCC", "ACGA", "NNNA", "ATTA", "GCGC", "AGCT"], "AT"), ("d", ["CGAT", "TTAA", "GGGC"], "")]},
+    "g3": {"W": 4, "chroms": [("c", ["AAAA", "GAAA", "GCAA", "GGCA", "GGCC", "NNAA", "ATTA", "CGAT"], "AT"), ("d", ["TTAG", "GGGC"], "C")]},
+    "g2": {"W": 4, "chroms": [("c", ["GATC", "AAAT", "CCGG", "NATA", "GTAC", "TATA"], "A")]},
+}
+
+
+def _genome(name):
+    g = E2E_GENOMES[name]
+    return g["W"], [(c, "".join(t) + tail) for c, t, tail in g["chroms"]]
+
+
+def _kth_smallest(vals, k):
+    """k-th smallest (0-based) of symbolic numbers, by rank counting (independent of the model's sorting network)"""
+    out = 0
+    taken = False
+    for i, v in enumerate(vals):
+        less = s_sum([ite(s_or(w < v, s_and(w == v, j < i)), 1, 0) for j, w in enumerate(vals) if j != i] or [0])
+        out = out + ite(less == k, v, 0)
+    return out
+
+
+def _e2e_expect(W, recs, loci, chroms, gc_bin_width, max_n_perc, inw, signal=None, outw=None, beta=None, valid_flags=None):
+    """independent oracle over the genome text: per GC bin the (symbolic) number of usable input loci, the tiles that may /
+    must be available as background.  loci: [(chrom, start, end)] with symbolic coordinates."""
+    from fractions import Fraction as Fr
+    wbin = Fr(gc_bin_width)
+    nb = int(1 / wbin) + 1
+    seqs = dict(recs)
+
+    def cnt(seq, lo, hi, chars):
+        return s_sum([ite(s_and(lo <= p, p < hi), 1, 0) for p in range(len(seq)) if seq[p] in chars] or [0])
+    inp = [0] * nb
+    usable = 0
+    for c, a, b in loci:
+        seq = seqs[c]
+        mid = a + (b - a) // 2
+        lo, hi = mid - inw // 2, mid + (inw + 1) // 2
+        valid = s_and(lo >= 0, hi <= len(seq))
+        nfrac_ok = cnt(seq, lo, hi, "N") * Fr(1) < Fr(max_n_perc) * inw
+        ok = s_and(valid, nfrac_ok)
+        usable = usable + ite(ok, 1, 0)
+        gcn = cnt(seq, lo, hi, "GC")
+        for k in range(nb):
+            # bin k  <=>  floor((gc/inw + w/2) / w) == k
+            v = gcn * Fr(1) / inw + wbin / 2
+            inp[k] = inp[k] + ite(s_and(ok, v >= wbin * k, v < wbin * (k + 1)), 1, 0)
+    thr = None
+    if signal is not None:
+        from fractions import Fraction as Fr2
+        cnts = []
+        for (c, a, b), vf in zip(loci, valid_flags):
+            if not vf:
+                continue
+            mid = a + (b - a) // 2
+            lo, hi = mid - outw // 2, mid + (outw + 1) // 2
+            cnts.append(s_sum([ite(s_and(lo <= p, p < hi), Fr2(signal[c][p]), 0) for p in range(len(signal[c]))]))
+        if cnts:
+            pos = Fr2(1, 100) * (len(cnts) - 1)
+            k0 = int(pos)
+            rm = _kth_smallest(cnts, k0) if pos == k0 else _kth_smallest(cnts, k0) + (_kth_smallest(cnts, k0 + 1) - _kth_smallest(cnts, k0)) * (pos - k0)
+            thr = rm * Fr2(beta)
+        else:
+            thr = "nan"                     # no usable input locus: the threshold is NaN and no tile passes the signal filter
+    tiles = []
+    for c, seq in recs:
+        if c not in chroms:
+            continue
+        for t in range(len(seq) // W):
+            tile = seq[t * W:(t + 1) * W]
+            nfrac = Fr(tile.count("N"), W)
+            if nfrac > Fr(max_n_perc):
+                continue
+            k = int((Fr(sum(tile.count(x) for x in "GC"), W) + wbin / 2) // wbin)
+            overl = s_or(*[s_and(c == lc, t * W < b, (t + 1) * W > a) for lc, a, b in loci if lc == c] or [False])
+            touched = s_or(*[s_and(t >= a // W, t <= b // W) for lc, a, b in loci if lc == c] or [False])
+            if thr is not None:
+                lf, rf = (W - outw) // 2, (W - outw + 1) // 2
+                tot = sum(Fr2(x) for x in signal[c][t * W + lf:(t + 1) * W - rf])
+                low = (tot <= thr) if not isinstance(thr, str) else False                       # summed signal over the central out_window not above the threshold
+                overl, touched = s_or(overl, s_not(low)), s_or(touched, s_not(low))
+            tiles.append((c, t, k, overl, touched))
+    return nb, inp, usable, tiles
+
+
+def _e2e(cfg, ld, shims, match, stats, out, add):
+    from symtm import env as E
+    W, recs = _genome(cfg["genome"])
+    DataFrame = shims["pandas"].DataFrame
+    gcw, maxn = cfg.get("gc_bin_width", 0.5), cfg.get("max_n_perc", 0.25)
+    out["functions"] += [ld.func_info("match", f) for f in ("extract_matching_loci", "_extract_and_filter_chrom", "_calculate_char_perc", "_char_perc_from_coords",
+                                                             "_perc_generator", "_sequence_generator", "_loci_coords_generator", "_valid_generator", "_get_chrom_sizes_dict")]
+    seqs = dict(recs)
+
+    def body(ctx):
+        E.FASTA_REGISTRY["sym.fa"] = list(recs)
+        loci = []
+        for i, spec in enumerate(cfg["loci"]):
+            c = spec[0]
+            if spec[1] == "sym":
+                a, ln = core.Int("start%d" % i), core.Int("len%d" % i)
+                ctx.assume(s_and(a >= 0, ln >= 1, ln <= cfg.get("max_len", 2 * W), a + ln <= len(seqs[c])))
+                loci.append((c, a, a + ln))
+            else:
+                loci.append((c, spec[1], spec[2]))
+        df = DataFrame({"chrom": [l[0] for l in loci], "start": [l[1] for l in loci], "end": [l[2] for l in loci]})
+        bw_kw, sig, valid_flags = {}, None, None
+        if cfg.get("signal"):
+            sig = {c: list(v) for c, v in cfg["signal"].items()}
+            E.BIGWIG_REGISTRY["sym.bw"] = sig
+            bw_kw = dict(bigwig="sym.bw", signal_beta=cfg.get("beta", 0.5))
+            # which input loci are inside their chromosome is decided here (one path per outcome)
+            big = max(W, cfg.get("out_window", W))
+            valid_flags = [bool(s_and(a + (b - a) // 2 - big // 2 >= 0, a + (b - a) // 2 + (big + 1) // 2 <= len(seqs[c]))) for c, a, b in loci]
+        chroms = cfg.get("chroms")
+        seed = core.Int("seed")
+        ctx.assume(seed >= 0)
+
+        def rp(m):
+            return dict(cfg, kind="e2e", loci_v=[[c, core.model_value(m, a), core.model_value(m, b)] for c, a, b in loci], seed=core.model_value(m, seed))
+        try:
+            res = match.extract_matching_loci(df, "sym.fa", in_window=W, out_window=cfg.get("out_window", W), max_n_perc=maxn, gc_bin_width=gcw,
+                                              chroms=chroms, random_state=seed, n_jobs=cfg.get("n_jobs", 1), **bw_kw)
+        except Exception as e:
+            if isinstance(e, core.Inconclusive):
+                raise
+            m = ctx.model() if ctx.check() == z3.sat else None
+            add("e2e:raises", "extract_matching_loci raised %s: %s" % (type(e).__name__, e), rp(m))
+            return "raised"
+        eff_chroms = chroms if chroms is not None else sorted({l[0] for l in loci})
+        nb, inp, usable, tiles = _e2e_expect(W, recs, loci, eff_chroms, gcw, maxn, W, signal=sig, outw=cfg.get("out_window", W), beta=cfg.get("beta", 0.5), valid_flags=valid_flags)
+        rows = list(zip(res.data["chrom"], res.data["start"], res.data["end"]))
+        rows = [(c, int(a), int(b)) for c, a, b in rows]
+        tile_of = {(c, t): (k, overl, touched) for c, t, k, overl, touched in tiles}
+        ok_shape = all(c in seqs and a % W == 0 and b == a + W and b <= len(seqs[c]) for c, a, b in rows) and len(set(rows)) == len(rows)
+        ok_sorted = rows == sorted(rows)
+        cl_valid = [ok_shape, ok_sorted]
+        cl_disj, got = [], [0] * nb
+        for c, a, b in rows:
+            info = tile_of.get((c, a // W))
+            if info is None:
+                cl_valid.append(False)        # N-rich tile, tile of a chromosome outside `chroms`, or not a tile
+                continue
+            k, overl, touched = info
+            got[k] += 1
+            cl_disj.append(s_not(overl))
+        elig_hi = [s_sum([ite(overl, 0, 1) for (_, _, k, overl, _) in tiles if k == kk] or [0]) for kk in range(nb)]
+        elig_lo = [s_sum([ite(touched, 0, 1) for (_, _, k, _, touched) in tiles if k == kk] or [0]) for kk in range(nb)]
+        cl_fill = [s_and(got[kk] >= core.s_min(inp[kk], elig_lo[kk]), got[kk] <= elig_hi[kk]) for kk in range(nb)]
+        cl_total = s_and(len(rows) <= usable, len(rows) >= core.s_min(usable, s_sum(elig_lo)))
+        for claim, key, what in ((s_and(*cl_valid), "e2e:invalid-locus", "a returned locus is not a distinct aligned tile inside an allowed chromosome with N fraction <= max_n_perc (or the result is not sorted)"),
+                                 (s_and(*cl_disj) if cl_disj else True, "e2e:overlaps-input", "a returned tile overlaps an input locus (or its signal is above signal_beta times the robust minimum of the input loci)"),
+                                 (s_and(*cl_fill), "e2e:bin-fill", "a GC bin received fewer than min(usable input, eligible background) or more than its eligible background"),
+                                 (cl_total, "e2e:total", "more loci returned than usable input loci, or input loci left unmatched although eligible background remains")):
+            m = ctx.prove(claim, key)
+            if m is not None:
+                add(key, what, rp(m))
+                return "returned"
+        if not out["samples"]:
+            out["samples"].append({"cfg": cfg, "rows_on_path": rows})
+        return "returned"
+    core.explore(body, stats=stats, max_paths=60000, reset=ld.restore)
+
+
 # ------------------------------------------------------------------ symbolic harness
 
 def _is_assign_to(name):
@@ -245,6 +523,9 @@ def worker(cfg):
                 out["samples"].append({"cfg": cfg, "path": "returned"})
             return "returned"
         core.explore(body, stats=stats, max_paths=40000, reset=ld.restore)
+
+    elif kind == "e2e":
+        _e2e(cfg, ld, shims, match, stats, out, add)
 
     elif kind == "coords":
         def body(ctx):
@@ -371,7 +652,8 @@ def worker(cfg):
             m = ctx.prove(s_and(*cl), "input-locus signal is summed over the centred out_window; GC windows have in_window width")
             if m is not None:
                 add("signal:threshold-window", "the robust-minimum signal of the input loci is not computed over their centred out_window", dict(cfg, kind="signalwin"))
-            m = ctx.prove(thr == core.Real("robust_min") * beta, "threshold = robust minimum * signal_beta")
+            # a threshold that this statement range no longer assigns is judged by the whole-function runs (kind e2e), not here
+            m = ctx.prove(thr == core.Real("robust_min") * beta, "threshold = robust minimum * signal_beta") if thr is not None else None
             if m is not None:
                 add("signal:threshold-value", "threshold is not signal_beta times the robust minimum", dict(cfg, kind="signalwin"))
             return "returned"
@@ -410,6 +692,16 @@ def configs(tier):
         cf.append(dict(kind="mask", width=W, max_coord=3 * W + 1))
     cf.append(dict(kind="select", width=4))
     cf.append(dict(kind="signal", n=2))
+    cf.append(dict(kind="e2e", genome="g2", loci=[("c", "sym")]))
+    cf.append(dict(kind="e2e", genome="g2", loci=[("c", "sym"), ("c", 22, 25)], gc_bin_width=0.25, max_n_perc=0.0, max_len=5))
+    # demand >= eligible background: every eligible tile is returned, so a wrongly eligible one shows
+    cf.append(dict(kind="e2e", genome="g2", loci=[("c", "sym"), ("c", 17, 19), ("c", 21, 23)], max_len=3))
+    sig2 = {"c": [1, 1, 1, 1, 0, 2, 1, 0, 3, 0, 1, 2, 1, 0, 0, 4, 0, 1, 1, 3, 2, 1, 0, 1, 2]}
+    cf.append(dict(kind="e2e", genome="g2", loci=[("c", "sym"), ("c", 9, 10)], signal=sig2, out_window=2, beta=0.75, max_len=2))
+    if not q:
+        cf.append(dict(kind="e2e", genome="g1", loci=[("c", "sym"), ("d", 5, 7)], chroms=["c", "d"], max_len=5))
+        cf.append(dict(kind="e2e", genome="g3", loci=[("c", "sym"), ("c", "sym")], gc_bin_width=0.25, max_len=4))
+        cf.append(dict(kind="e2e", genome="g3", loci=[("d", "sym"), ("c", 9, 14), ("c", 30, 33)], chroms=["c"], gc_bin_width=0.25, max_len=6))
     return cf
 
 
